@@ -112,7 +112,7 @@ class CUSUM(StreamingDetector):
             s_h = max(
                 0,
                 self._upper_bound[self.samples_since_reset - 1]
-                + (self._stream[self.samples_since_reset - 1] - self.target)
+                + (self._stream[-1] - self.target)
                 / self.sd_hat
                 - self.delta,
             )
@@ -120,7 +120,7 @@ class CUSUM(StreamingDetector):
                 0,
                 self._lower_bound[self.samples_since_reset - 1]
                 - self.delta
-                - (self._stream[self.samples_since_reset - 1] - self.target)
+                - (self._stream[-1] - self.target)
                 / self.sd_hat,
             )
             self._upper_bound.append(s_h)
